@@ -78,15 +78,15 @@ def gen_case(rng, maxc=12, nfrag=None):
     sites = {}
     for _ in range(nfrag):
         fid += 1
-        name = 'NS500:%d:HXXFC:1:1101:%d:%d' % (rng.randint(1, 9), 1000 + fid, rng.randint(1000, 9999))
         cell = rng.choice(cells)
         umi = rand_seq(rng, 3)
         tg = tags(cell, umi)
+        name = 'NS500:%d:HXXFC:%s:1101:%d:%d' % (rng.randint(1, 9), tg.get('La', '1'), 1000 + fid, rng.randint(1000, 9999))
         ci = rng.choice(live)
         clen = contigs[ci][1]
         L1, L2 = rng.randint(20, 40), rng.randint(20, 40)
         kinds = ['pair', 'pair', 'pair', 'pair_rev', 'single', 'half', 'orphan', 'split', 'invalid_motif', 'invalid_orient',
-                 'qcfail', 'dup', 'secondary']
+                 'qcfail', 'dup', 'secondary', 'orphan_unmapped']
         if unmapped_policy != 'none':
             kinds += ['unmapped_pair', 'unmapped_single'] * (3 if unmapped_policy == 'many' else 1)
         kind = rng.choice(kinds)
@@ -130,6 +130,13 @@ def gen_case(rng, maxc=12, nfrag=None):
                 mk(name, PAIRED | PROPER | MREV | R1, ci, p1, s1, c1, ci, p2, tg, kind)
             else:
                 mk(name, PAIRED | PROPER | REV | R2, ci, p2, s2, c2, ci, p1, tg, kind)
+        elif kind == 'orphan_unmapped':
+            # an unmapped mate placed at the position of its (filtered away) mapped mate: the only kind of record
+            # that idxstats counts in the 'unmapped' column of a contig
+            if rng.random() < 0.5:
+                mk(name, PAIRED | UNMAP | R2, ci, p1, s2, '', ci, p1, tg, kind)
+            else:
+                mk(name, PAIRED | UNMAP | MREV | R1, ci, p1, s1, '', ci, p1, tg, kind)
         elif kind == 'split':
             cj = rng.choice(live)
             pj = rng.randint(0, max(0, contigs[cj][1] - 60))
@@ -160,12 +167,27 @@ def gen_case(rng, maxc=12, nfrag=None):
             mk(name, PAIRED | UNMAP | MUNMAP | R2, -1, -1, s2, '', -1, -1, tg, kind)
         elif kind == 'unmapped_single':
             mk(name, UNMAP, -1, -1, s1, '', -1, -1, tg, kind)
+    # a quarter of the libraries carry the demultiplexer's information in the query name instead of in tags (the
+    # form the mapper leaves behind): QueryNameFlagger then moves it into tags and restores the Illumina name
+    name_form = 'qname' if rng.random() < 0.25 else 'tags'
+    if name_form == 'qname':
+        for r in recs:
+            t = r['tags']
+            ins, rn, fc, la, ti, cx, cy = r['n'].split(':')
+            ly, bi = t['SM'].rsplit('_', 1)
+            r['xn'] = r['n']
+            r['xrg'] = '%s.%s.%s' % (fc, la, t['SM'])
+            r['n'] = ';'.join('%s:%s' % kv for kv in (
+                ('Is', ins), ('RN', rn), ('Fc', fc), ('La', la), ('Ti', ti), ('CX', cx), ('CY', cy), ('Fi', 'N'), ('CN', '0'),
+                ('aa', 'CGTC'), ('aA', 'CGTC'), ('aI', '1'), ('LY', ly), ('RX', t['RX']), ('RQ', 'GGG'), ('BI', bi),
+                ('bc', t['BC']), ('BC', t['BC']), ('QT', 'GGGGGGGG'), ('MX', 'NLAIII384C8U3')))
+            r['tags'] = {}
     # coordinate sort (stable), unplaced last; ties shuffled
     rng.shuffle(recs)
     recs.sort(key=lambda r: (r['t'] if r['t'] >= 0 else 10 ** 9, r['p']))
     for i, r in enumerate(recs):
         r['tags']['zi'] = i
-    return {'contigs': contigs, 'records': recs}
+    return {'contigs': contigs, 'records': recs, 'name_form': name_form}
 
 
 def run_args(method, mode, threads=None, no_rejects=False):
@@ -187,6 +209,8 @@ def gen_malformed(rng):
     """inputs OUTSIDE the precondition (flag combinations no aligner writes; colliding names): the model and the
     code must still agree (exceptions are modelled, the overwrite of a colliding cache entry is modelled)"""
     c = gen_case(rng, maxc=4, nfrag=rng.randint(2, 8))
+    while c['name_form'] != 'tags':
+        c = gen_case(rng, maxc=4, nfrag=rng.randint(2, 8))
     kind = rng.choice(['nobits', 'unpaired_r2', 'collision'])
     recs = c['records']
     mapped = [r for r in recs if r['t'] >= 0 and not (r['f'] & (SEC | SUPP))]
@@ -221,6 +245,11 @@ def gen_malformed(rng):
 
 
 def payload(r):
+    """(name, seq, qual, contig, pos, cigar); for query-name-encoded libraries the name the tagger must restore"""
+    return (r.get('xn', r['n']), r['s'], r['ql'], r['t'], r['p'], r['c'])
+
+
+def raw_payload(r):
     return (r['n'], r['s'], r['ql'], r['t'], r['p'], r['c'])
 
 
@@ -347,12 +376,12 @@ class Prop(fw.PropBase):
         recs = []
         for r in case['records']:
             f = r['f']
-            rg = rgs.setdefault(expected_rg(r['tags']), len(rgs))
+            rg = rgs.setdefault(r.get('xrg') or expected_rg(r['tags']), len(rgs))
             recs.append([r['tags']['zi'], names.setdefault(r['n'], len(names)), [] if r['t'] < 0 else [r['t']], r['p'],
                          [] if r['nt'] < 0 else [r['nt']], 1 if f & PAIRED else 0, 1 if f & R1 else 0, 1 if f & R2 else 0,
                          1 if f & MUNMAP else 0, 1 if f & (SEC | SUPP) else 0, 1 if f & QCFAIL else 0, rg,
                          1 if (valid_ids is None or r['tags']['zi'] in valid_ids) else 0,
-                         mk.setdefault((r['tags']['SM'], r['tags']['RX'], r['t']), len(mk))])
+                         mk.setdefault((r.get('xrg') or r['tags'].get('SM'), r['t']), len(mk))])
         qf = spec['method'] == 'qflag'
         cfg = [1 if spec['mode'] == 'multi' else 0, 1 if qf else 0, 1 if (qf or not spec['nr']) else 0, 1, 1 if qf else 0, []]
         hdr = [[i, l] for i, (n, l) in enumerate(case['contigs'])]
@@ -475,7 +504,7 @@ class Prop(fw.PropBase):
                 dis.append({'level': 'e2e', 'case': ci, 'impl_error': r['fatal']})
                 continue
             # htslib must have stored what we generated (sanity of the harness, not of the tagger)
-            if collections.Counter(payload(x) for x in r['input']['records']) != collections.Counter(payload(x) for x in c['records']):
+            if collections.Counter(raw_payload(x) for x in r['input']['records']) != collections.Counter(raw_payload(x) for x in c['records']):
                 raise RuntimeError('harness: the synthetic BAM does not read back as generated (case %d)' % ci)
             valid = {}
             for spec, rr in zip(c['run_specs'], r['runs']):
@@ -525,7 +554,7 @@ class Prop(fw.PropBase):
                                 'only_impl': sorted((b - a).elements())[:4], 'n_model': len(mrows), 'n_impl': len(irows)})
                 elif mrg != irg:
                     dis.append({'level': 'e2e', 'case': ci, 'run': spec, 'header_rg_model': mrg, 'header_rg_impl': irg})
-        n_inv = sum(v for k, v in hist_kind.items() if k in ('invalid_motif', 'invalid_orient', 'qcfail', 'half', 'unmapped_pair', 'unmapped_single'))
+        n_inv = sum(v for k, v in hist_kind.items() if k in ('invalid_motif', 'invalid_orient', 'qcfail', 'half', 'unmapped_pair', 'unmapped_single', 'orphan_unmapped'))
         self.cov.update({
             'evaluations': len(slices) + n_runs,
             'distinct_nontrivial': len(set(fw.canon_hash(s) for s in slices if len(s) >= 2)) + len(nontrivial),
@@ -538,6 +567,7 @@ class Prop(fw.PropBase):
             'hist_contigs_per_library': dict(sorted(hist_contigs.items())), 'hist_layout': dict(hist_layout),
             'hist_record_kind': dict(hist_kind), 'records_in_rejected_kinds': n_inv,
             'malformed_libraries': sum(1 for c in cases if c.get('malformed')),
+            'query_name_encoded_libraries': sum(1 for c in cases if c.get('name_form') == 'qname'),
             'precondition_hit_rate': None if pre_hits is None else round(pre_hits, 4),
             'traces_validated_against_impl': n_traces,
             'spec_violations_on_impl': len(spec_bad), 'disagreements': len(dis),
